@@ -1,5 +1,6 @@
 import Ebu.Model.Upcast
 import Ebu.Proofs.Upcast
+import Ebu.Props.C03
 /-!
 C16 — Upcaster registration can never create a cycle and upcasting always terminates.
 
@@ -46,6 +47,13 @@ theorem apply_terminates (g : Graph) (h : Bool) (d : List Nat) (t : Nat) :
 theorem apply_calls_bounded (g : Graph) (h : Bool) (d : List Nat) (t : Nat) :
     (apply g h d t).calls.length ≤ g.length + 1 :=
   Ebu.Upcast.apply_calls_le g h d t
+
+/-- "also when registrations race": validation and insertion are one write-locked critical
+section in the CURRENT source (fact table regenerated from upcast.go on every run), so racing
+registrations are equivalent to some sequential order and `acyclic_invariant` applies -/
+theorem racing_registrations_serialised :
+    Ebu.Locks.RegisterAtomic Ebu.Generated.accessFacts = true :=
+  Ebu.Props.C03.facts_register_atomic
 
 /-- non-vacuity: a three-node registry built through `register`, where the closing edge is
 rejected and a rogue upcaster (declared 1→2, returns 1) is stopped by `apply` -/
